@@ -36,7 +36,17 @@ static void fence_check(World &w, const Slot &s, int prop, const char *what) {
 
 static void op_bytes(std::vector<uint8_t> &v, size_t n, const Op &op, uint64_t tag) {
     v.resize(n);
-    if (n) { if (op.flags & F_ZERODATA) memset(v.data(), 0, n); else fill_bytes(v.data(), n, op.dseed, tag); }
+    if (!n) return;
+    if (op.flags & F_ZERODATA) { memset(v.data(), 0, n); return; }
+    // data style is part of the data seed: mostly uniform bytes, sometimes degenerate patterns
+    switch ((op.dseed >> 40) % 32) {
+    case 0: memset(v.data(), 0x00, n); break;
+    case 1: memset(v.data(), 0xFF, n); break;
+    case 2: memset(v.data(), 0x80, n); break;
+    case 3: memset(v.data(), 0x01, n); break;
+    case 4: fill_bytes(v.data(), n, op.dseed, tag); for (size_t i = 16; i < n; i++) v[i] = v[i % 16]; break; // period-16 data
+    default: fill_bytes(v.data(), n, op.dseed, tag); break;
+    }
 }
 static uint8_t g_dummy[8];
 
@@ -130,7 +140,7 @@ extern "C" size_t sim_device(void *user_data, unsigned char *buf, size_t size) {
     memset(r.buf, 0, 32);
     uint8_t tmp[32];
     fill_bytes(tmp, 32, c.op ? c.op->dseed : 1, 0xD000 + req);
-    if (c.op && c.op->d == req + 1 && k > 0) tmp[0] ^= 0x01; // twin run: flip one delivered byte
+    if (c.op && (c.op->d & 0xFFFFFFFFu) == req + 1 && k > 0) tmp[(c.op->d >> 32) ? (size_t)k - 1 : 0] ^= 0x01; // twin run: flip the first or the last delivered byte
     memcpy(r.buf, tmp, (size_t)k);
     memcpy(buf, tmp, (size_t)k);   // exactly k bytes are written
     r.emitted = scan_emitted(t);
